@@ -151,3 +151,67 @@ def derive(curve, seed, path, hm=hmac512):
         if x is None:
             return None
     return x
+
+
+# ---- Base58Check, extended-key serialisation and P2PKH recomputed from their definitions (hashlib only)
+B58 = "123456789ABCDEFGHJKLMNPQRSTUVWXYZabcdefghijkmnopqrstuvwxyz"
+XPUB_VER, XPRV_VER = bytes.fromhex("0488b21e"), bytes.fromhex("0488ade4")
+
+
+def sha256d(b):
+    return hashlib.sha256(hashlib.sha256(b).digest()).digest()
+
+
+def b58check_encode(payload):
+    b = payload + sha256d(payload)[:4]
+    v = int.from_bytes(b, "big")
+    s = ""
+    while v:
+        v, r = divmod(v, 58)
+        s = B58[r] + s
+    return "1" * (len(b) - len(b.lstrip(b"\x00"))) + s
+
+
+def b58check_decode(s):
+    v = 0
+    for ch in s:
+        v = v * 58 + B58.index(ch)
+    z = len(s) - len(s.lstrip("1"))
+    b = bytes(z) + (v.to_bytes((v.bit_length() + 7) // 8, "big") if v else b"")
+    if sha256d(b[:-4])[:4] != b[-4:]:
+        raise ValueError("checksum")
+    return b[:-4]
+
+
+def xpub_string(node):
+    return b58check_encode(XPUB_VER + bytes([node.depth]) + node.pfp + node.index.to_bytes(4, "big") + node.chain + node.pubc)
+
+
+def xprv_string(node):
+    return b58check_encode(XPRV_VER + bytes([node.depth]) + node.pfp + node.index.to_bytes(4, "big") + node.chain
+                           + b"\x00" + node.priv)
+
+
+def xkey_fields(s):
+    """(is_public, depth, pfp, index, chain, key bytes without the 0x00 marker)"""
+    b = b58check_decode(s)
+    ver, depth, pfp, index, chain, key = b[:4], b[4], b[5:9], int.from_bytes(b[9:13], "big"), b[13:45], b[45:]
+    if ver == XPUB_VER:
+        return True, depth, pfp, index, chain, key
+    return False, depth, pfp, index, chain, key[1:]
+
+
+def p2pkh_address(pubc, net_ver=b"\x00"):
+    return b58check_encode(net_ver + hash160(pubc))
+
+
+def electrum_v1_child(k32, change, addr):
+    """Old Electrum: (private key, uncompressed public key without prefix) of the child, from the definition."""
+    C = WEIER[SECP]
+    k = int.from_bytes(k32, "big")
+    M = F.w_base_mul(SECP, k % C.n)
+    mpk = M[0].to_bytes(32, "big") + M[1].to_bytes(32, "big")
+    s = int.from_bytes(sha256d(("%d:%d:" % (addr, change)).encode() + mpk), "big")
+    kc = (k + s) % C.n
+    P = C.add(M, F.w_mul(SECP, s, C.G))
+    return kc, P
